@@ -96,6 +96,11 @@ fn run_cfg(sc: &Scenario, n: usize, q: Option<usize>, rng: &mut Rng, model: &mut
             }
         }
     }
+    // StreamStatement observed: arrival histories follow the static send sequences
+    let regs = g::reg_scripts(sc);
+    for msg in stream_oracle(&lock.sim, sc, &regs) {
+        lock.oracle_failures.push((lock.steps, "arrival-not-static-stream".into(), msg));
+    }
     Ok(Run {
         n,
         q,
